@@ -154,6 +154,7 @@ func runC04(c *Check) {
 	c.divisorUnmodified()
 	c.pseudoFramesOnEverySample()
 	c.flagGuardCoversBody("C04-R12", "profile", "Aggregate")
+	c.objNamesFormats()
 }
 
 // R5b: edge weights are de-duplicated per (caller, callee) pair and per sample: the
